@@ -199,6 +199,31 @@ def analyse(program):
 def decide_path(s, guards, leaf):
     """-> dict(name, aff=(status, detail), safe=(status, detail), idrule=(status, detail), digest)"""
     facts, unknown = _facts(guards)
+    if unknown:
+        # path conditions in another syntactic form (truthiness of a child list, len(...) == 0, ...): derive the same facts by
+        # enumerating which abstract states (number of atom / compound children) can take this path
+        try:
+            feas = [(nA, nK) for nA in range(0, 3) for nK in range(0, 3)
+                    if any(all(bool(interp(g, {'v': v, 'nA': nA, 'nK': nK})) == pol for g, pol in guards) for v in range(-3, 5))]
+            vdep = any(len({all(bool(interp(g, {'v': v, 'nA': nA, 'nK': nK})) == pol for g, pol in guards) for v in range(-3, 5)}) > 1
+                       for nA in range(0, 3) for nK in range(0, 3))
+            if feas and not vdep:
+                facts = set()
+                if all(nK >= 1 for _, nK in feas):
+                    facts.add('has_compound')
+                if all(nK == 0 for _, nK in feas):
+                    facts.add('all_atoms')
+                if all(nA >= 1 for nA, _ in feas):
+                    facts.add('has_atom')
+                if all(nA == 0 for nA, _ in feas):
+                    facts.add('no_atoms')
+                want = {(a, k) for a in range(3) for k in range(3)
+                        if ('has_compound' not in facts or k >= 1) and ('all_atoms' not in facts or k == 0)
+                        and ('has_atom' not in facts or a >= 1) and ('no_atoms' not in facts or a == 0)}
+                if want == set(feas):
+                    unknown = []          # the facts characterise the path exactly
+        except Uninterp:
+            pass
     name = {frozenset(): 'no-push'}.get(frozenset(facts))
     if 'has_compound' in facts and 'has_atom' in facts:
         name = 'mixed-push'
@@ -254,6 +279,25 @@ def _bounded_safe(s, guards, leaf):
         return ('inconclusive', f"typestate not decidable: {e!r}")
 
 
+def _idrule(leaf):
+    """id of the returned object: variable = None if generated_id else self.variable"""
+    if leaf[0] != 'ret':
+        return ('ok', '')
+    base = leaf[1]
+    upd = {}
+    while base[0] == 'upd':
+        upd.setdefault(base[2], base[3])
+        base = base[1]
+    if base[0] == 'call' and base[1] == T.G(ATLEAST) and not base[2]:
+        want = T.canonical(('if', ('attr', T.V('self'), 'generated_id'), T.NONE, ('attr', T.V('self'), 'variable')))
+        got = upd.get('variable', dict(base[3]).get('variable'))
+        return ('ok', '') if got == want else ('violation', f"variable of the result is {T.show(got) if got else 'missing'}, expected None if generated_id else self.variable")
+    if base[0] == 'call' and base[1][0] == 'attr' and base[1][2] == 'negate':
+        return ('violation', f"the path returns `{T.show(base)[:120]}` - the negation of a child, which carries the child's id: an "
+                             f"explicitly given id of the negated node is not kept")
+    return ('inconclusive', 'id of the returned object not determined')
+
+
 def _decide_symbolic(s, guards, leaf, facts, unknown, res):
     name = res['name']
     if leaf[0] != 'ret':
@@ -263,7 +307,7 @@ def _decide_symbolic(s, guards, leaf, facts, unknown, res):
         return res
     if unknown:
         res['aff'] = res['safe'] = ('inconclusive', 'unrecognised path condition: ' + T.show(unknown[0][0])[:200])
-        res['idrule'] = ('ok', '')
+        res['idrule'] = _idrule(leaf)
         res['digest'] = 'x'
         return res
     obj, eff = leaf[1], leaf[2]
@@ -414,6 +458,14 @@ def interp(t, st):
         return int({'Eq': a == b, 'NotEq': a != b, 'Lt': a < b, 'LtE': a <= b, 'Gt': a > b, 'GtE': a >= b}[t[1]])
     if k == 'not':
         return int(not interp(t[1], st))
+    # truthiness of a child list
+    x0 = _strip_list(t)
+    if x0 == COMP:
+        return st['nK']
+    if x0 == ATOMS:
+        return st['nA']
+    if x0 == P_SELF:
+        return st['nA'] + st['nK']
     if k == 'and':
         return int(all(interp(x, st) for x in t[1]))
     if k == 'or':
